@@ -66,27 +66,21 @@ class C06(GProp):
 
     def oracle(self, ct, it):
         fails = self.oracle_with(ct, it, True)
+        exact = not peg.reference.unknown_used
         if peg.reference.lost_met and not fails:
             # the reference follows the code where a temporary filter change meets tokens skipped eagerly at a parse start
             # (they stay lost when the wider filter comes back): that is the recorded C05 finding, reported here as such
             return [((1,), '[parse-start-filter-change] a token skipped eagerly at a parse start stays lost although a later filter (the restored one, or the one filter_with / unfiltered installs) keeps it')]
-        if fails:
-            c = pfields(ct)
-            gs = sexp.dump(c['g'])
-            # a mark keeps the filtered tokens in front of it only when a look-ahead is buffered there; within this family only
-            # seq_count (stopping at a mismatch) and the restore step of a filter change leave one behind on success
-            if 'sub' in gs and ('filterwith' in gs or 'unfiltered' in gs) and ('seqcount' in gs or gs.count('filterwith') + gs.count('unfiltered') >= 2):
-                # the recorded C05 finding seen through the combinators: a `sub` mark reached with a look-ahead buffered
-                # does not drop the filtered tokens in front of it, which a later filter change makes visible. If the
-                # reading "sub marks do not drop" explains the result exactly, the failure belongs to that finding.
-                if not self.oracle_with(ct, it, False):
-                    return [(p, '[sub-after-lookahead] ' + w) for p, w in fails]
+        if fails and not exact:
+            # a sub-parse mark was reached behind a combinator whose look-ahead the reference does not follow (lists, brackets,
+            # recovery): whether the mark skips the filtered tokens in front of it is then not known to the oracle. A complaint
+            # that the other reading of the mark explains is left to the model comparison.
+            if not self.oracle_with(ct, it, False):
+                return []
         return fails
 
     def classify(self, ct, f):
         what = str(f.get('detail', {}).get('what', ''))
-        if f.get('kind') == 'oracle' and what.startswith('[sub-after-lookahead]'):
-            return self.id + '-sub-after-lookahead-filter-change'
         if f.get('kind') == 'oracle' and what.startswith('[parse-start-filter-change]'):
             return self.id + '-filter-change-at-parse-start'
         return None
